@@ -654,13 +654,16 @@ class C08(Cfg):
             "add/move/pop, hash increments) with random start offsets; the Lean driver searches for a sequential order of whole operations that "
             "respects the recorded call/return instants and explains every result and the final tables (Wing-Gong on the model); plus conservation "
             "runs of 160..320 concurrent increments, pops from both ends and moves; on-disk WAL, in-memory VFS and shared-cache :memory: "
-            "configurations; a case is one history, non-trivial when at least two operations overlapped")
+            "configurations; and the same search over histories of 2..5 client connections of the real server binary (unix socket, on-disk database) "
+            "issuing single commands and MULTI...EXEC blocks, a block being one event that must take effect as a unit; a case is one history, non-trivial when at least two operations overlapped")
 
     def streams(self, tier, seed, search):
         n = 12
         r = 2500 if tier == "thorough" else (400 if search else 200)
         out = [dict(kind="conc", args=["-seed", seed * 1000 + 600 + i, "-rounds", r, "-cons", 2, "-cfgs", "wal,memdb"]) for i in range(n)]
         out += [dict(kind="conc", args=["-seed", seed * 1000 + 650 + i, "-rounds", r // 2, "-cons", 1, "-cfgs", "shared"]) for i in range(2)]
+        # clients of one server: the real binary over a unix socket, single commands and MULTI...EXEC blocks from 2..5 connections
+        out += [dict(kind="srvconc", args=["-seed", seed * 1000 + 670 + i, "-rounds", r // 2]) for i in range(4)]
         return out
 
     def counts(self, op, v):
